@@ -27,6 +27,7 @@ def run(chk):
     batcher.watchers_after_last_attempt(chk, P, "C08")
     batcher.tokio_blocking(chk, P, "C08")
     batcher.tokio_wait(chk, P, "C08")
+    batcher.time_arithmetic(chk, P, "C08")
     batcher.send_rules(chk, P, "C08")
     batcher.wait_closures(chk, P, "C08")
     batcher.worker_panics(chk, P, "C08")
